@@ -4,3 +4,4 @@ pub mod iovec;
 pub mod readn;
 pub mod stream;
 pub mod tlv;
+pub mod vtime;
